@@ -60,6 +60,10 @@ def run(ctx):
     for k in range(16):
         jobs.append({'states': [], 'seed': ctx.seed + 7000 + k, 'out': os.path.join(tdir, f'w{k}.ndjson'), 'prefix': f'w{k}',
                      'walks': 6 if q else 60, 'steps': 30})
+    r3 = ctx.mc('mc/MC_RatPolynomial.tla', 'mc/MC_RatPolynomial_quick.cfg' if q else 'mc/MC_RatPolynomial_thorough.cfg',
+                'RationalPolynomial part of PolynomialModel (shortcuts of __add__ / __mul__, common-factor removal, inv): homomorphism, exact zero tests, well-formedness on every reachable value')
+    if not r3['ok']:
+        ctx.report(f"PolynomialModel (RationalPolynomial) violates {r3['violated']}", {'kind': 'spec', 'violated': ','.join(r3['violated'])}, {'tail': r3['out'][-3000:]})
     # AdditionChains / power_supply (every integer power goes through them): model checking of the loop machine,
     # and the chains the real code computes validated by TLC
     r2 = ctx.mc('mc/MC_AdditionChains.tla', 'mc/MC_AdditionChains.cfg', 'AdditionChains loop machine for limits 1..40: termination, valid / complete / prefix-closed chains, power_supply exponents')
